@@ -629,7 +629,6 @@ def unspecified(ast):
         if tag == 'query':
             if node[1][0] not in ORIGIN_TAGS:
                 return 'query over a statement without a reference'
-            names = [n for n, _ in schema_of(node, env)]
             for owner, clause, _, feature in clauses(node):
                 if owner != ():
                     continue
@@ -637,9 +636,8 @@ def unspecified(ast):
                 for sub in subfeatures(top):
                     if sub[0] == 'alias':
                         return 'alias in an operand position'
-                    if sub[0] == 'window' and clause != 'select' and not (clause == 'having'):
-                        if not contains_aggregate(sub):
-                            return 'ranking window outside select/having'
+                    if sub[0] == 'window' and clause not in ('select', 'having') and not contains_aggregate(sub):
+                        return 'ranking window outside select/having'
                     if sub[0] == 'window' and clause == 'select' and node[4]:
                         return 'window selected from a grouped query'
                     if sub[0] == 'window' and any(contains(p, 'window', 'agg') for p in sub[3] + tuple(f for f, _ in sub[4])):
@@ -647,7 +645,6 @@ def unspecified(ast):
             if node[7] is not None and not (isinstance(node[7][0], int) and isinstance(node[7][1], int)
                                             and node[7][0] >= 0 and node[7][1] >= 0):
                 return 'limit that is not a natural number'
-            del names
         elif tag == 'join':
             for side in (node[1], node[2]):
                 if side[0] not in ORIGIN_TAGS:
@@ -700,6 +697,14 @@ def unspecified(ast):
 # ------------------------------------------------------------------------------------------------ builders
 class Builder:
     """AST -> real dsl objects.  ``raw=False`` uses the fluent API / python operators, ``raw=True`` the constructors.
+
+    Two python / forml quirks that matter when comparing the two routes:
+      * ``left < right`` with ``right`` of a *subclass* of ``type(left)`` (a table Column vs a reference Element) makes
+        python call the reflected method first (-> GreaterThan(right, left)); the fluent route therefore calls the
+        operator method of ``left`` directly in that case, so that both routes build the operator the AST names;
+      * the fluent ``Query`` methods read ``self.selection`` / ``self.prefilter`` ... through the process-wide lru cache
+        of ``Source.__getitem__``: the statement returned may physically contain clause objects of an *earlier, equal*
+        statement (C08 relies on ``structure()`` to notice when "equal" was a hash collision).
 
     ``split=True`` (fluent only) issues a top-level ``and`` of where/having as two successive calls, which the DSL
     documents as equivalent to one call with the conjunction.
